@@ -83,7 +83,7 @@ Fixpoint dec_fields (ks : list kind) (b : bytes) : option (list N * bytes) :=
 
 (* ---- the range of a partial key ---- *)
 
-(* the proposed repair of utils.IncBytes: strip trailing 0xff bytes, increment the last one *)
+(* utils.PrefixSuccessor (fix of finding F22): strip trailing 0xff bytes, increment the last one *)
 Fixpoint succ_prefix (b : bytes) : option bytes :=
   match b with
   | [] => None
@@ -93,7 +93,8 @@ Fixpoint succ_prefix (b : bytes) : option bytes :=
               end
   end.
 
-(* keeps = true: utils.IncBytes as pinned (Lex.inc_bytes) *)
+(* keeps = false: utils.PrefixSuccessor, what Read uses; keeps = true: the former utils.IncBytes
+   (Lex.inc_bytes); the translator reports which one the source calls *)
 Definition upper_bound (keeps : bool) (c : bytes) : option bytes :=
   if keeps then inc_bytes c else succ_prefix c.
 Definition fin_of (o : option bytes) : bytes := match o with Some q => q | None => [] end.
@@ -324,6 +325,14 @@ Fixpoint live_entries (m : list (lkey * N)) : list (lkey * N) :=
   | (k, v) :: r => (k, v) :: filter (fun e => negb (lkey_eqb k (fst e))) (live_entries r)
   end.
 
+(* every given value, leading or not, is the row's value *)
+Fixpoint match_spec (q k : list (option N)) : bool :=
+  match q, k with
+  | Some a :: q', Some b :: k' => (a =? b) && match_spec q' k'
+  | None :: q', _ :: k' => match_spec q' k'
+  | _, _ => true
+  end.
+
 Definition get_ok (m : list (lkey * N)) (k : lkey) (res : gres) : bool :=
   match llookup k m with
   | Some v => gres_eqb res (GVal v)
@@ -349,7 +358,11 @@ Definition read_ok (m : list (lkey * N)) (s : schema) (i ws : N) (q : vkey) (cod
                   || existsb (rrow_eqb (row_of k (snd e))) rows) (live_entries m)
     (* ascending in key bytes, hence each once *)
     && ascending_b (map (fun r => enc_ccols s (key_of_row r)) rows)
-  else true.
+  else
+    (* not a partial key in the sense of the property (hole, missing partition field): nothing is
+       required of a refusal; if the read is served, no returned row may contradict a given value *)
+    negb (code =? 0)
+    || forallb (fun r => match_spec (k_c q) (map Some (r_c r)) && is_prefix (k_v q) (r_v r)) rows.
 
 Fixpoint satisfies_from (views : list schema) (m : list (lkey * N)) (ops : list vop) : bool :=
   match ops with
